@@ -223,9 +223,13 @@ var extShapes = func() []extShape {
 	}{{"ia5 http", I("http://cps.example.com")}, {"ia5 https", I("https://cps.example.com/cps")}, {"utf8", U("https://cps.example.com/cps")}, {"ia5 empty", I("")}, {"ia5 not a url", I("see our website")}, {"ia5 ldap", I("ldap://cps.example.com")}} {
 		cps := cps
 		add("policy cps "+cps.l, func() []*der.Node { return polExt(polInfo(gen.OIDPolOV, der.Seq(der.OID(oidCPS), cps.n.Clone()))) })
-		add("anyPolicy cps "+cps.l, func() []*der.Node { return polExt(polInfo(gen.OIDPolAny, der.Seq(der.OID(oidCPS), cps.n.Clone())), polInfo(gen.OIDPolOV)) })
+		add("anyPolicy cps "+cps.l, func() []*der.Node {
+			return polExt(polInfo(gen.OIDPolAny, der.Seq(der.OID(oidCPS), cps.n.Clone())), polInfo(gen.OIDPolOV))
+		})
 	}
-	add("anyPolicy with unknown qualifier", func() []*der.Node { return polExt(polInfo(gen.OIDPolAny, der.Seq(der.OID("1.3.6.1.5.5.7.2.3"), U("x"))), polInfo(gen.OIDPolOV)) })
+	add("anyPolicy with unknown qualifier", func() []*der.Node {
+		return polExt(polInfo(gen.OIDPolAny, der.Seq(der.OID("1.3.6.1.5.5.7.2.3"), U("x"))), polInfo(gen.OIDPolOV))
+	})
 	add("policy with unknown qualifier", func() []*der.Node { return polExt(polInfo(gen.OIDPolOV, der.Seq(der.OID("1.2.3.4"), der.Int64(1)))) })
 	add("policy qualifier without value", func() []*der.Node { return polExt(polInfo(gen.OIDPolOV, der.Seq(der.OID(oidCPS)))) })
 	add("policy duplicated", func() []*der.Node { return polExt(polInfo(gen.OIDPolOV), polInfo(gen.OIDPolOV)) })
@@ -236,12 +240,18 @@ var extShapes = func() []extShape {
 	add("policy two user notices", func() []*der.Node {
 		return polExt(polInfo(gen.OIDPolOV, userNotice(nil, U("one")), userNotice(nil, der.Prim(der.TagBMP, bmpOf("two")))))
 	})
-	add("policies critical", func() []*der.Node { return []*der.Node{der.MakeExt(gen.OIDExtPol, true, der.Seq(polInfo(gen.OIDPolOV)))} })
+	add("policies critical", func() []*der.Node {
+		return []*der.Node{der.MakeExt(gen.OIDExtPol, true, der.Seq(polInfo(gen.OIDPolOV)))}
+	})
 
 	// --- authority key identifier shapes ---
 	kid := []byte{1, 2, 3, 4, 5, 6, 7, 8, 9, 10, 11, 12, 13, 14, 15, 16, 17, 18, 19, 20}
-	dirName := func() *der.Node { return der.Ctx(1, gen.GNDir(gen.Name(gen.A(gen.OIDC, "US"), gen.A(gen.OIDO, "Verif Test CA Org")))) }
-	add("aki key id only", func() []*der.Node { return []*der.Node{der.MakeExt(gen.OIDExtAKI, false, der.Seq(der.CtxPrim(0, kid)))} })
+	dirName := func() *der.Node {
+		return der.Ctx(1, gen.GNDir(gen.Name(gen.A(gen.OIDC, "US"), gen.A(gen.OIDO, "Verif Test CA Org"))))
+	}
+	add("aki key id only", func() []*der.Node {
+		return []*der.Node{der.MakeExt(gen.OIDExtAKI, false, der.Seq(der.CtxPrim(0, kid)))}
+	})
 	add("aki critical", func() []*der.Node { return []*der.Node{der.MakeExt(gen.OIDExtAKI, true, der.Seq(der.CtxPrim(0, kid)))} })
 	add("aki key id + issuer + serial", func() []*der.Node {
 		return []*der.Node{der.MakeExt(gen.OIDExtAKI, false, der.Seq(der.CtxPrim(0, kid), dirName(), der.CtxPrim(2, []byte{0x12, 0x34})))}
@@ -253,15 +263,23 @@ var extShapes = func() []extShape {
 		return []*der.Node{der.MakeExt(gen.OIDExtAKI, false, der.Seq(der.CtxPrim(0, kid), der.CtxPrim(2, []byte{1})))}
 	})
 	add("aki empty sequence", func() []*der.Node { return []*der.Node{der.MakeExt(gen.OIDExtAKI, false, der.Seq())} })
-	add("aki empty key id", func() []*der.Node { return []*der.Node{der.MakeExt(gen.OIDExtAKI, false, der.Seq(der.CtxPrim(0, nil)))} })
+	add("aki empty key id", func() []*der.Node {
+		return []*der.Node{der.MakeExt(gen.OIDExtAKI, false, der.Seq(der.CtxPrim(0, nil)))}
+	})
 	add("aki absent", func() []*der.Node { return []*der.Node{nil, der.OID(gen.OIDExtAKI)} })
 
 	// --- CRL distribution points ---
 	dp := func(parts ...*der.Node) *der.Node { return der.Seq(parts...) }
 	full := func(gns ...*der.Node) *der.Node { return der.Ctx(0, der.Ctx(0, gns...)) }
-	add("crldp http", func() []*der.Node { return []*der.Node{der.MakeExt(gen.OIDExtCRLDP, false, der.Seq(dp(full(gen.GNURI("http://crl.example.net/r1.crl")))))} })
-	add("crldp https", func() []*der.Node { return []*der.Node{der.MakeExt(gen.OIDExtCRLDP, false, der.Seq(dp(full(gen.GNURI("https://crl.example.net/r1.crl")))))} })
-	add("crldp ldap only", func() []*der.Node { return []*der.Node{der.MakeExt(gen.OIDExtCRLDP, false, der.Seq(dp(full(gen.GNURI("ldap://ldap.example.net/cn=crl")))))} })
+	add("crldp http", func() []*der.Node {
+		return []*der.Node{der.MakeExt(gen.OIDExtCRLDP, false, der.Seq(dp(full(gen.GNURI("http://crl.example.net/r1.crl")))))}
+	})
+	add("crldp https", func() []*der.Node {
+		return []*der.Node{der.MakeExt(gen.OIDExtCRLDP, false, der.Seq(dp(full(gen.GNURI("https://crl.example.net/r1.crl")))))}
+	})
+	add("crldp ldap only", func() []*der.Node {
+		return []*der.Node{der.MakeExt(gen.OIDExtCRLDP, false, der.Seq(dp(full(gen.GNURI("ldap://ldap.example.net/cn=crl")))))}
+	})
 	add("crldp ldap and http", func() []*der.Node {
 		return []*der.Node{der.MakeExt(gen.OIDExtCRLDP, false, der.Seq(dp(full(gen.GNURI("ldap://ldap.example.net/cn=crl"), gen.GNURI("http://crl.example.net/r1.crl")))))}
 	})
@@ -271,7 +289,9 @@ var extShapes = func() []extShape {
 	add("crldp with reasons", func() []*der.Node {
 		return []*der.Node{der.MakeExt(gen.OIDExtCRLDP, false, der.Seq(dp(full(gen.GNURI("http://crl.example.net/r1.crl")), der.CtxPrim(1, []byte{1, 0x60}))))}
 	})
-	add("crldp reasons only", func() []*der.Node { return []*der.Node{der.MakeExt(gen.OIDExtCRLDP, false, der.Seq(dp(der.CtxPrim(1, []byte{1, 0x60}))))} })
+	add("crldp reasons only", func() []*der.Node {
+		return []*der.Node{der.MakeExt(gen.OIDExtCRLDP, false, der.Seq(dp(der.CtxPrim(1, []byte{1, 0x60}))))}
+	})
 	add("crldp with crl issuer", func() []*der.Node {
 		return []*der.Node{der.MakeExt(gen.OIDExtCRLDP, false, der.Seq(dp(full(gen.GNURI("http://crl.example.net/r1.crl")), der.Ctx(2, gen.GNDir(gen.Name(gen.A(gen.OIDO, "Other CRL Issuer")))))))}
 	})
@@ -283,19 +303,29 @@ var extShapes = func() []extShape {
 	})
 	add("crldp empty point", func() []*der.Node { return []*der.Node{der.MakeExt(gen.OIDExtCRLDP, false, der.Seq(dp()))} })
 	add("crldp empty list", func() []*der.Node { return []*der.Node{der.MakeExt(gen.OIDExtCRLDP, false, der.Seq())} })
-	add("crldp critical", func() []*der.Node { return []*der.Node{der.MakeExt(gen.OIDExtCRLDP, true, der.Seq(dp(full(gen.GNURI("http://crl.example.net/r1.crl")))))} })
+	add("crldp critical", func() []*der.Node {
+		return []*der.Node{der.MakeExt(gen.OIDExtCRLDP, true, der.Seq(dp(full(gen.GNURI("http://crl.example.net/r1.crl")))))}
+	})
 	add("crldp directory name", func() []*der.Node {
 		return []*der.Node{der.MakeExt(gen.OIDExtCRLDP, false, der.Seq(dp(full(gen.GNDir(gen.Name(gen.A(gen.OIDCN, "CRL1")))))))}
 	})
 	add("crldp absent", func() []*der.Node { return []*der.Node{nil, der.OID(gen.OIDExtCRLDP)} })
-	add("freshest crl", func() []*der.Node { return []*der.Node{der.MakeExt(oidFreshestCRL, false, der.Seq(dp(full(gen.GNURI("http://crl.example.net/delta.crl")))))} })
-	add("freshest crl critical", func() []*der.Node { return []*der.Node{der.MakeExt(oidFreshestCRL, true, der.Seq(dp(full(gen.GNURI("http://crl.example.net/delta.crl")))))} })
+	add("freshest crl", func() []*der.Node {
+		return []*der.Node{der.MakeExt(oidFreshestCRL, false, der.Seq(dp(full(gen.GNURI("http://crl.example.net/delta.crl")))))}
+	})
+	add("freshest crl critical", func() []*der.Node {
+		return []*der.Node{der.MakeExt(oidFreshestCRL, true, der.Seq(dp(full(gen.GNURI("http://crl.example.net/delta.crl")))))}
+	})
 
 	// --- LEI extensions ---
 	add("lei", func() []*der.Node { return []*der.Node{der.MakeExt(oidLEI, false, P("529900T8BM49AURSDO55"))} })
 	add("lei critical", func() []*der.Node { return []*der.Node{der.MakeExt(oidLEI, true, P("529900T8BM49AURSDO55"))} })
-	add("lei + role", func() []*der.Node { return []*der.Node{der.MakeExt(oidLEI, false, P("529900T8BM49AURSDO55")), der.MakeExt(oidLEIRole, false, P("CEO"))} })
-	add("lei + critical role", func() []*der.Node { return []*der.Node{der.MakeExt(oidLEI, false, P("529900T8BM49AURSDO55")), der.MakeExt(oidLEIRole, true, P("CEO"))} })
+	add("lei + role", func() []*der.Node {
+		return []*der.Node{der.MakeExt(oidLEI, false, P("529900T8BM49AURSDO55")), der.MakeExt(oidLEIRole, false, P("CEO"))}
+	})
+	add("lei + critical role", func() []*der.Node {
+		return []*der.Node{der.MakeExt(oidLEI, false, P("529900T8BM49AURSDO55")), der.MakeExt(oidLEIRole, true, P("CEO"))}
+	})
 	add("lei role only", func() []*der.Node { return []*der.Node{der.MakeExt(oidLEIRole, false, P("CEO"))} })
 	return out
 }()
